@@ -520,6 +520,21 @@ impl Stats {
     }
 }
 
+/// walk a `ParamIter` to its leaves (the recursion is the caller's: it stops at 200 levels, deeper values count as one leaf)
+fn iter_walk(mut p: unmarshal::iter::ParamIter, depth: usize) -> Result<usize, UnmarshalError> {
+    if p.is_base() || depth >= 200 {
+        return Ok(1);
+    }
+    let mut n = 0usize;
+    while let Some(r) = p.recurse() {
+        n += iter_walk(r?, depth + 1)?;
+        if n > 1_000_000 {
+            break;
+        }
+    }
+    Ok(n)
+}
+
 /// rendering of Ok(Ok(x)) / Ok(Err(e)) / Err(panic)
 fn oc<T>(r: Result<Result<T, UnmarshalError>, String>, show: impl Fn(&T) -> String) -> String {
     match r {
@@ -665,6 +680,21 @@ impl Worker {
         let msg = MarshalledMessage { body, dynheader: DynamicHeader::default(), typ: MessageType::Signal, flags: 0 };
         let all = self.st.call(CP, a, "unmarshall_all", || msg.unmarshall_all().map(|m| m.params.len()));
         s.push_str(&format!("|Ba={}", oc(all, |n| n.to_string())));
+        // the lazy decoder `wire::unmarshal::iter` (public, experimental): walk every value of the body to its leaves
+        let it = self.st.call(CV, a, "iter walk", || {
+            let types = rustbus::signature::Type::parse_description(sigs)?;
+            let buf = ab.s();
+            let mut offset = 0usize;
+            let mut leaves = 0usize;
+            for t in &types {
+                match unmarshal::iter::ParamIter::new(t, &mut offset, buf, bo) {
+                    None => break,
+                    Some(r) => leaves += iter_walk(r?, 0)?,
+                }
+            }
+            Ok(leaves)
+        });
+        s.push_str(&format!("|Bi={}", oc(it, |n| n.to_string())));
         s
     }
 
@@ -2226,6 +2256,12 @@ impl<'a> Eval<'a> {
                 self.hit_outcome("body.validate", &bv);
                 self.hit_outcome("body.get_param", if bp.ends_with(":EndOfMessage") { "ok" } else { &bp });
                 self.hit_outcome("body.unmarshall_all", &ba);
+                // the lazy decoder walks whatever the validator accepts (descriptor indices aside: none are attached here)
+                let bi = field(&obs, "Bi").unwrap_or("?").to_string();
+                self.hit_outcome("body.iter_walk", &bi);
+                if accepted(&bv).is_some() && accepted(&bi).is_none() && !bi.contains("BadFdIndex") && !bi.starts_with("panic") {
+                    self.out.violation(&req0, &format!("wire::unmarshal::iter cannot walk a body that validate() accepts: validate {} / iter {}", bv, bi));
+                }
                 let loop_all = bp.ends_with(":EndOfMessage");
                 let used_all = match (accepted(&bc), len) {
                     (Some(Some(n)), Some(l)) => n == l,
